@@ -149,7 +149,7 @@ func specOf(c map[string]interface{}) podSpec {
 }
 
 func newPlugWorld(provider bool, nodes map[string]string, confText string) (*plugWorld, error) {
-	w := &plugWorld{provider: provider, confText: confText, slog: &storeLog{fault: -1}, pending: map[string]pendingEv{}}
+	w := &plugWorld{provider: provider, confText: confText, slog: &storeLog{fault: -1, crash: -1}, pending: map[string]pendingEv{}}
 	w.kube = kubefake.NewSimpleClientset()
 	w.gcli = fakeGalaxyCli.NewSimpleClientset()
 	w.gcli.PrependReactor("*", "floatingips", w.slog.react)
@@ -343,6 +343,9 @@ func (w *plugWorld) runOp(c map[string]interface{}) map[string]interface{} {
 		c = iw.resolve(c)
 	}
 	w.slog.begin(faultOf(c, "fstore"))
+	if k := faultOf(c, "fcrash"); k >= 0 {
+		w.slog.beginCrash(k) // the process dies right before its k-th store call; the scenario restarts it next
+	}
 	w.cloud.begin(faultOf(c, "fcloud"))
 	w.bindInj = faultOf(c, "fbind") == 1
 	w.bindLog = nil
